@@ -147,3 +147,13 @@ def probes(case, layers, view, img):
     for s in st:
         p["qcow2.unit_" + s] = 1
     return p
+
+
+def req_meta_bytes(cfg, img, off, ln):
+    cs = 1 << cfg["cluster_bits"]
+    n = l2_size(cfg)
+    ncl = (cfg["nsectors"] * 512 + cs - 1) // cs
+    l1 = ((ncl + n - 1) // n + cfg["l1_extra"]) * 8
+    tables = ln // (cs * n) + 2
+    comp = (ln // cs + 2) * (cs + 1024) if cfg["compress"] else 0
+    return l1 + tables * cs + comp
